@@ -121,6 +121,22 @@ pub fn twice(x: u32) -> u32 {
     let y = x / 2;
     y + y
 }
+
+pub trait TR {
+    fn p(self: @SM) -> felt252;
+    fn q(self: @SM) -> u32;
+}
+
+pub impl TRImpl of TR {
+    fn p(self: @SM) -> felt252 {
+        let unused_p = 1;
+        *self.a
+    }
+    fn q(self: @SM) -> u32 {
+        let unused_q = 2;
+        *self.b
+    }
+}
 ";
 
 fn initial(ch: &mut Choices) -> Contents {
@@ -175,7 +191,7 @@ fn edit(ch: &mut Choices, cur: &mut Contents, saved: &mut Vec<Contents>, n: usiz
     }
     let text = cur[f].clone().unwrap();
     let mut ls = lines_of(&text);
-    let kind = ch.weighted(&[5, 4, 4, 3, 3, 3, 2, 2, 4, 7, 1, 2, 2, 3]);
+    let kind = ch.weighted(&[5, 4, 4, 3, 3, 3, 2, 2, 4, 7, 1, 2, 2, 3, 4]);
     // Every edit that may introduce errors can be undone by a later repair.
     if matches!(kind, 2 | 4 | 5 | 6 | 7 | 12 | 13) {
         saved.push(cur.clone());
@@ -349,6 +365,58 @@ fn edit(ch: &mut Choices, cur: &mut Contents, saved: &mut Vec<Contents>, n: usiz
             format!("override unset for {} (file absent)", FILES[f])
         }
         11 => "no-op rewrite (same contents set again)".into(),
+        14 => {
+            // Reorder only: swap two adjacent member lines of a struct / enum / trait / impl body
+            // (one-line members), or two adjacent one-item blocks (functions) at the same level.
+            let mut cands: Vec<(usize, usize, usize)> = vec![]; // (first start, second start, second end) in lines
+            // One-line members: consecutive lines with the same indentation, ending with ',' or ';'.
+            for i in 0..ls.len().saturating_sub(1) {
+                let (a, b) = (&ls[i], &ls[i + 1]);
+                let ind = |l: &str| l.len() - l.trim_start().len();
+                let member = |l: &str| {
+                    let t = l.trim();
+                    (t.ends_with(',') || t.ends_with(';')) && !t.starts_with("let ") && !t.starts_with("//") && t.contains(':') && !t.contains('(') || (t.starts_with("fn ") && t.ends_with(';'))
+                };
+                if ind(a) == ind(b) && ind(a) > 0 && member(a) && member(b) {
+                    cands.push((i, i + 1, i + 2));
+                }
+            }
+            // Adjacent functions (top level or inside an impl): `fn` header .. closing brace at the
+            // same indentation.
+            let mut blocks: Vec<(usize, usize, usize)> = vec![]; // (start, end_exclusive, indent)
+            let mut i = 0;
+            while i < ls.len() {
+                let l = &ls[i];
+                let indent = l.len() - l.trim_start().len();
+                let t = l.trim_start();
+                if (t.starts_with("fn ") || t.starts_with("pub fn ")) && t.trim_end().ends_with('{') {
+                    let close = format!("{}}}", " ".repeat(indent));
+                    if let Some(j) = (i + 1..ls.len()).find(|j| ls[*j] == close) {
+                        blocks.push((i, j + 1, indent));
+                        i = j + 1;
+                        continue;
+                    }
+                }
+                i += 1;
+            }
+            for w in blocks.windows(2) {
+                if w[0].1 == w[1].0 && w[0].2 == w[1].2 {
+                    cands.push((w[0].0, w[1].0, w[1].1));
+                }
+            }
+            if cands.is_empty() {
+                return "no-op (nothing to reorder)".into();
+            }
+            let (a, b, e) = cands[ch.below(cands.len())];
+            let first: Vec<String> = ls[a..b].to_vec();
+            let second: Vec<String> = ls[b..e].to_vec();
+            let mut out: Vec<String> = ls[..a].to_vec();
+            out.extend(second);
+            out.extend(first);
+            out.extend(ls[e..].iter().cloned());
+            cur[f] = Some(join(&out));
+            format!("reorder: lines {a}..{b} swapped with {b}..{e} in {}", FILES[f])
+        }
         _ => {
             // Change a literal.
             let toks = rough_lex(&text);
@@ -487,7 +555,8 @@ impl Prop for C13 {
          typed let, const item, expression), statement line duplication / deletion, item duplication (same or new \
          name) / deletion / move to the other file, syntax-breaking edits (delete a closer / separator / arrow, \
          stray half-typed tokens, unterminated string) and repair (back to the saved state), override unset (file \
-         absent) and set again, no-op rewrite, literal change. After each edit the edited database is asked \
+         absent) and set again, no-op rewrite, literal change, pure reordering (two adjacent struct / enum / \
+         trait members or two adjacent functions, also inside an impl, swapped). After each edit the edited database is asked \
          nothing, diagnostics, or diagnostics + Sierra (drawn per step), so edits accumulate between queries. At \
          check points (a quarter of the steps and the last one in quick, every step in thorough) diagnostics text \
          (with line/column) and, when error-free, the Sierra text (debug names) must equal those of a fresh \
